@@ -452,12 +452,13 @@ class Side:
     """Everything observed on one side of a differential run."""
 
     __slots__ = ("log", "out", "term", "exc", "srcs", "fns", "value", "params", "inputs_before",
-                 "inputs_after", "handle", "foreign", "suspensions", "objs", "final_out", "alias", "items_changed")
+                 "inputs_after", "handle", "foreign", "suspensions", "objs", "final_out", "alias", "items_changed", "rtype")
 
     def __init__(self) -> None:
         self.log: List[tuple] = []
         self.out: List[Any] = []  # canonical yielded items
         self.term: Any = None  # ("stop",) | ("raise", type name, is injected object) | ("open",) | ("ret", canon)
+        self.rtype: Any = None  # exact type name of an aggregation's result
         self.exc: Optional[BaseException] = None
         self.srcs: List[SrcState] = []
         self.fns: List[Optional[FnState]] = []
@@ -587,6 +588,7 @@ def run_sync_side(spec: dict, fault: Optional[Fault] = None, steps: Optional[int
             try:
                 side.value = tool.sync(S, F, P)
                 side.term = ("ret", canon(side.value))
+                side.rtype = type(side.value).__name__
             except BaseException as exc:  # noqa: BLE001
                 side.exc = exc
                 side.term = _term_of(exc, fault)
@@ -704,6 +706,7 @@ def run_async_side(spec: dict, flavours: Optional[List[str]] = None, fn_flavours
             side.handle = aw
             side.value = await aw
             side.term = ("ret", canon(side.value))
+            side.rtype = type(side.value).__name__
         except BaseException as exc:  # noqa: BLE001
             side.exc = exc
             side.term = _term_of(exc, fault)
